@@ -422,7 +422,9 @@ class BashLanguage:
     @staticmethod
     def setupFingerprint(spec, env, trace):
         env["BOB_CWD"] = BashLanguage.__munge(env["BOB_CWD"])
-        args = [getBashPath()]
+        # Bash sources ~/.bashrc for "-c" commands if stdin is a network
+        # connection (like a shell started by sshd). Prevent that.
+        args = [getBashPath(), "--norc"]
         if trace: args.append("-x")
         args.extend(["-c", spec.fingerprintScript])
         return args
